@@ -15,6 +15,7 @@ import (
 type fmtErr struct {
 	msg     value
 	wrapped iface
+	code    int64 // grpc status code when built by status.Errorf
 }
 
 var fmtErrorType *nativeType
